@@ -33,6 +33,7 @@ GSender ==
           \/ AppWrite(n)        /\ Log(SRec("AppWrite", "bytes", n))
           \/ MsgPut("bytes", n) /\ Log(SRec("MsgPut", "bytes", n))
      \/ \E n \in StrSizes : MsgPut("string", n) /\ Log(SRec("MsgPut", "string", n))
+     \/ \E n \in StrBytesSizes : MsgPut("stringbytes", n) /\ Log(SRec("MsgPut", "stringbytes", n))
      \/ EndMessage /\ Log(SRec("EndMessage", "", 0))
      \/ MsgFlush   /\ Log(SRec("MsgFlush", "", 0))
      \/ MsgFinish  /\ Log(SRec("MsgFinish", "", 0))
